@@ -19,7 +19,9 @@ ARITH = {"+": P_ADD, "-": P_ADD, "*": P_MUL, "/": P_MUL, "^": P_MUL, "%": P_MUL}
 
 OPERANDS = ["[a]", "[b]", "[c]", "1", "2.5", "'s'", '"s"', "`d`", "f([a],'x')", "[d]"]
 # a second operand alphabet with awkward string operands (brackets, the other quote, operators inside strings)
-OPERANDS_AWKWARD = ['"(x"', "[a]", "'y)'", '"it\'s"', "[b]", '"a AND b"', "'1 + (2'", "`)`", '"]["', "2.5"]
+OPERANDS_AWKWARD = ['"(x"', "[a]", "'y)'", '"it\'s"', "[b]", '"a AND b"', "'1 + (2'", "`)`", '"]["', "2.5", '"#FF0000"', "'#FfF'", '"#aBcDeF80"',
+                    # quotes and brackets inside back-quoted literals
+                    '`5" pipe`', "`o'clock (UTC)`"]
 
 
 def level(node):
@@ -92,6 +94,18 @@ def tokenize(s):
     while i < len(s):
         if s[i:].strip() == "":
             break
+        if out and out[-1] in (("op", "~"), ("op", "~*")) and s[i:].lstrip().startswith("/"):
+            # a regular expression operand: verbatim up to its closing slash (and an optional i)
+            j = i + (len(s[i:]) - len(s[i:].lstrip()))
+            k = s.find("/", j + 1)
+            if k < 0:
+                raise RefParseError("unterminated regular expression at %d" % j)
+            k += 1
+            if s[k:k + 1] == "i":
+                k += 1
+            out.append(("str", s[j:k]))
+            i = k
+            continue
         m = TOKEN_RE.match(s, i)
         if not m or m.end() == i:
             raise RefParseError("cannot tokenize at %d: %r" % (i, s[i:i + 20]))
@@ -203,7 +217,7 @@ def normal(node):
         t = node[1]
         if re.fullmatch(r"\d+\.?\d*", t):
             return ("num", float(t))
-        if "(" in t and not t.startswith(("'", '"', "`")):
+        if "(" in t and not t.startswith(("'", '"', "`", "/")):
             return refparse(t)
         return ("atom", t)
     if k in ("or", "and"):
@@ -308,6 +322,18 @@ def well_formed(node):
         return True
     return all(well_formed(c) for c in node[1:] if isinstance(c, tuple))
 
+
+# comparisons whose right operand is a regular expression holding brackets, quotes and operators (structure only for a naive scanner)
+REGEX_LEAVES = [
+    ("cmp", "~", ("atom", "[a]"), ("atom", "/a)b/")),
+    ("cmp", "~*", ("atom", "[b]"), ("atom", "/(x/")),
+    ("cmp", "~", ("atom", "[c]"), ("atom", "/^(p|q)$/i")),
+    ("atom", "[d]"),
+    ("cmp", "~", ("atom", '"[e]"'), ("atom", "/\\)+ AND (/")),
+    ("cmp", "~*", ("atom", "[f]"), ("atom", "/it's \"/")),
+    ("bin", "+", ("atom", "[g]"), ("atom", "1")),
+    ("cmp", "~", ("atom", "[h]"), ("atom", "/[)(]/")),
+]
 
 # leaves that are themselves small expressions: trees over these reach 7-9 operators with 3 skeleton operators
 SUBTREE_LEAVES = [
